@@ -547,7 +547,7 @@ func c04Other2(c C04Case, z *decimal.Decimal, ops []*decimal.Decimal, o *h.Obs) 
 		if err := d.GobDecode(b); err != nil {
 			bad("GobDecode(GobEncode(%v)): %v", xv, err)
 		}
-		if !h.Read(&d).SameAll(h.Read(x)) {
+		if !h.Read(&d).SameButWords(h.Read(x)) {
 			bad("gob round trip of %v = %v", h.Read(x), h.Read(&d))
 		}
 	case "marshaltext":
